@@ -206,7 +206,7 @@ func flistEncode(w *workerCtx, s *flistScn, obs *flistObs) (any, error) {
 	cs.Up.Int32(-1)
 	select {
 	case <-p.Done:
-	case <-time.After(10 * time.Second):
+	case <-idleAfter(10 * time.Second):
 	}
 	// what the tree looks like to lstat (the entries the list must describe)
 	filepath.Walk(tree, func(pth string, info os.FileInfo, err error) error {
